@@ -6,7 +6,7 @@
 From Coq Require Import ZArith Bool.
 From Flocq Require Import Core BinarySingleNaN.
 From Flocq Require Bits.
-From Tetl Require Import Lib.Base C12.Model.
+From Tetl Require Import Lib.Base C12.Model C12.Spec.
 Local Open Scope Z_scope.
 
 Notation b64 := (binary_float 53 1024).
@@ -180,3 +180,23 @@ Definition dd_lt_m (a b : dty) : b64 -> b64 -> out bool :=
   let tc := dd_common_m a b in fun x y => do '(u, v) <- tc x y; Val (dlt u v).
 Definition dd_eq_m (a b : dty) : b64 -> b64 -> out bool :=
   let tc := dd_common_m a b in fun x y => do '(u, v) <- tc x y; Val (deq u v).
+
+(** * guards used by the correspondence run to decide where the float-source theorems apply *)
+(* the whole number held by a double, if any (-0.0 excluded) *)
+Definition d_int_of (x : b64) : option Z :=
+  match x with
+  | B754_nan | B754_infinity _ => None
+  | _ => let z := Btrunc x in if enc64 (d_of_Z z) =? enc64 x then Some z else None
+  end.
+(* a conservative computable form of the hypotheses of C12_float_source_cast_exact and
+   C12_float_source_rounding_exact *)
+Definition fsrc_ok (n1 d1 n2 d2 c : Z) : bool :=
+  let cn := factor_num n1 d1 n2 d2 in
+  let cd := factor_den n1 d1 n2 d2 in
+  let g := cnum n1 n2 in
+  let l := cden d1 d2 in
+  let t1 := ticks n1 d1 g l in
+  let t2 := ticks n2 d2 g l in
+  (Z.abs c <=? two53) && (cn <=? two53) && (cd <=? two53) && (Z.abs (c * cn) <? two53)
+  && (l <=? max64) && (t1 <=? two53) && (t2 <=? two53)
+  && (Z.abs c * t1 + 2 * t2 <=? two53) && (Z.abs (floor_spec n1 d1 n2 d2 c) + 2 <=? two53).
